@@ -175,8 +175,21 @@ func env(k, d string) string {
 //	vcheck <ID> <quick|thorough>
 //	vcheck <ID> --replay <file>
 //	vcheck -worker <i> <n> <out> <ID> <tier>
+//
+// Subs are extra sub-commands of the vcheck binary (child processes a check
+// spawns for itself, e.g. memory-capped loaders): vcheck -sub <name> args...
+var Subs = map[string]func(args []string) int{}
+
 func Main() {
 	args := os.Args[1:]
+	if len(args) >= 2 && args[0] == "-sub" {
+		f := Subs[args[1]]
+		if f == nil {
+			fmt.Fprintf(os.Stderr, "unknown sub-command %s\n", args[1])
+			os.Exit(2)
+		}
+		os.Exit(f(args[2:]))
+	}
 	if len(args) >= 6 && args[0] == "-worker" {
 		i, _ := strconv.Atoi(args[1])
 		n, _ := strconv.Atoi(args[2])
